@@ -164,6 +164,9 @@ def _ival(n, env, lets, depth=0):
     if k == "bin" and n["op"] in ("+", "-", "*"):
         a, b = _ival(n["l"], env, lets, depth + 1), _ival(n["r"], env, lets, depth + 1)
         return a + b if n["op"] == "+" else a - b if n["op"] == "-" else a * b
+    if k == "bin" and n["op"] in ("&", "|", "^", "<<", ">>"):
+        a, b = _ival(n["l"], env, lets, depth + 1), _ival(n["r"], env, lets, depth + 1)
+        return {"&": a & b, "|": a | b, "^": a ^ b, "<<": a << b, ">>": a >> b}[n["op"]]
     if k == "mcall" and n["m"] in ("min", "max") and len(n["args"]) == 1:
         a, b = _ival(n["recv"], env, lets, depth + 1), _ival(n["args"][0], env, lets, depth + 1)
         return min(a, b) if n["m"] == "min" else max(a, b)
@@ -344,6 +347,24 @@ def run(ctx):
             key = "%s|%s" % (path, c.split("::")[-1])
             if good:
                 compared += 1
+                # ... and the comparison cannot be walked around: every path from the computation to a success return passes one
+                # of the comparison sites (a sentinel test on the *stored* value, `if expected != 0 && ..`, opens such a path)
+                cfg_d = mirg.Cfg(f)
+                oks = [bb_ for bb_, kind, _p in rules.ret_assignments(f) if kind in ("ok", "copy", "other", "call")]
+                cmp_bbs = {e[0] for e in good}
+                stray = None
+                if bb not in cmp_bbs:
+                    # blocks reachable from the computation without entering a comparison block
+                    reach_ = cfg_d.reachable(t["t"], avoid=cmp_bbs) if t.get("t") is not None else set()
+                    hit = [o for o in oks if o in reach_]
+                    # a success return that is also reachable *without* the computation is not a bypass of this digest but the
+                    # ordinary no-checksum path only if it does not come after the computation: require the stray return to be
+                    # strictly dominated by the computation block or reached from it through the function's forward edges
+                    stray = hit[0] if hit and eqs else None
+                if stray is not None and re.search(r"adler|crc32|Hasher", c):
+                    ctx.bad(R_cmp, "%s|%s|bypass" % (path, c.split("::")[-1]), "%s:%d" % (f.file, t["ln"]), "a success return (bb%d) is reachable from the %s computation at line %d without passing its comparison" % (stray, c.split("::")[-1], t["ln"]),
+                            "for some stored values the computed checksum is never compared: altered data is returned as valid")
+                    continue
                 ctx.ok(R_cmp, {"fn": path, "digest": c.split("::")[-1], "line": t["ln"], "compared_at": [e[1] for e in good][:3]})
             else:
                 ctx.bad(R_cmp, key, "%s:%d" % (f.file, t["ln"]), "result of %s never reaches an equality whose outcome is used" % c.split("::")[-1],
@@ -653,3 +674,67 @@ def run(ctx):
         else:
             ctx.bad(R_sig, "verify_pkcs1_v15_md5|comparisons", pk.where, "%d comparisons (8 expected: length, two header bytes, padding bytes, separator, DigestInfo length and content, hash); expected-hash compared: %s" % (ncmp, bool(eqs)),
                     "part of the signed structure is no longer checked: a forged or altered signature block can verify")
+
+    _attr_layout_rule(ctx, mpq)
+
+
+def _attr_layout_rule(ctx, mpq):
+    """load_attributes guesses whether the (attributes) file has one entry per block or one fewer by comparing its length with two
+    expected sizes.  Both must be the *same* function of their entry count: evaluated for every flag combination and counts
+    around the byte boundary of the patch-bit column"""
+    R = ctx.rule("C10.attribute-layout-sizes-are-one-formula", "load_attributes: expected_size(count - 1 layout) evaluated with count_minus_1 = m equals expected_size(full layout) evaluated with total_files = m, for all 16 flag sets and m in 0..=17", floor=1)
+    f = mpq.fns.get("wow_mpq::archive::Archive::load_attributes")
+    if f is None or not f.hir:
+        ctx.bad(R, "load_attributes|missing", "-", "function not found", "anchor gone")
+        return
+    ctx.saw_fn(f)
+    body = f.hir["body"]
+
+    def accumulate(name, env):
+        """value of the accumulator `name` after its `let mut` and the `if .. { name += .. }` statements that follow it"""
+        for blk in [x for x in hirq.walk(body) if x.get("k") == "block"]:
+            stmts = blk.get("stmts") or []
+            for i, st in enumerate(stmts):
+                if st.get("k") == "let" and st["pat"].get("k") == "bind" and st["pat"]["name"] == name and st.get("init") is not None:
+                    val = _ival(st["init"], env, {})
+                    n_upd = 0
+                    for st2 in stmts[i + 1:]:
+                        st2 = hirq.strip(st2)
+                        if st2.get("k") != "if":
+                            continue
+                        ups = [u for u in hirq.walk(st2["then"]) if u.get("k") == "assignop" and hirq.strip(u["l"]).get("k") == "path" and hirq.strip(u["l"])["res"].get("local") == name]
+                        if not ups:
+                            continue
+                        n_upd += 1
+                        if _bval(st2["c"], env, {}):
+                            for u in ups:
+                                d = _ival(u["r"], env, {})
+                                val = val + d if u["op"].startswith("+") else val - d
+                    return val, n_upd
+        raise _NoEval("accumulator %s not found" % name)
+    names = sorted({l["pat"]["name"] for l in hirq.find(body, "let") if l["pat"].get("k") == "bind" and re.match(r"expected_size", l["pat"].get("name") or "")})
+    full = next((n for n in names if "full" in n), None)
+    minus = next((n for n in names if "minus" in n), None)
+    if not full or not minus:
+        ctx.bad(R, "load_attributes|shape", f.where, "the two expected-size accumulators were not found (%s)" % names, "shape changed")
+        return
+    try:
+        bad = None
+        n_eval = 0
+        for flags in range(16):
+            for m in range(0, 18):
+                a, ua = accumulate(full, {"flags_from_data": flags, "total_files": m})
+                b, ub = accumulate(minus, {"flags_from_data": flags, "total_files": m + 1, "count_minus_1": m})
+                n_eval += 1
+                if a != b and bad is None:
+                    bad = (flags, m, a, b)
+        if ua < 4 or ub < 4:
+            ctx.bad(R, "load_attributes|columns", f.where, "fewer than four column terms recognised (%d / %d)" % (ua, ub), "shape changed")
+        elif bad:
+            ctx.bad(R, "load_attributes|layout-size", f.where, "for flags 0x%X and %d entries the full-layout formula gives %d bytes but the count-1 formula gives %d" % bad,
+                    "an intact (attributes) file in the count-1 layout matches neither expected size: it is parsed with the wrong entry count and rejected, so the archive's CRC32/MD5 attributes cannot be verified (callers that ignore the load error then skip verification)")
+        else:
+            ctx.ok(R, {"evaluations": n_eval, "accumulators": [full, minus]})
+    except _NoEval as e:
+        ctx.bad(R, "load_attributes|not-evaluable", f.where, "expected-size computation not evaluable: %s" % e, "shape changed")
+
